@@ -176,9 +176,20 @@ func (h *H) newHistory(tk []string) {
 	h.srv = olareg.New(h.conf)
 	h.sessN, h.sessID, h.sessRepo = map[string]int{}, map[int]string{}, map[int]string{}
 	h.mon.reset(h)
+	h.mon.fsBaseline(h)
 }
 
 func (h *H) restart(tk []string) {
+	h.mon.fsUnchanged(h)
+	if kv(h.confToks, "store") == "dir" && !*h.conf.Storage.ReadOnly {
+		for repo := range h.mon.repos {
+			if h.mon.routable(h, repo) {
+				_ = h.srv.VerifGC(repo)
+				h.mon.gc(h, repo)
+			}
+		}
+	}
+	h.mon.beforeRestart(h)
 	h.closeServer()
 	merged := append([]string{}, h.confToks...)
 	for _, t := range tk {
@@ -195,6 +206,9 @@ func (h *H) restart(tk []string) {
 	h.conf = h.buildConf(merged)
 	h.srv = olareg.New(h.conf)
 	h.mon.restarted(h)
+	h.mon.fsBaseline(h)
+	h.mon.afterRestart(h, len(tk) == 0)
+	h.mon.fsUnchanged(h)
 }
 
 type reqOpt struct {
@@ -271,7 +285,7 @@ func (h *H) do(method, path string, o reqOpt) Resp {
 	out.Subj = h.tk.tokDigest(res.Header.Get("OCI-Subject"))
 	out.Filt = res.Header.Get("OCI-Filters-Applied")
 	if out.Status == 200 || out.Status == 206 {
-		if o.mode == "get" || o.mode == "head" || o.mode == "refs" {
+		if o.mode == "get" || o.mode == "head" {
 			out.Cl = res.Header.Get("Content-Length")
 		}
 		out.CRange = strings.ReplaceAll(res.Header.Get("Content-Range"), " ", "")
@@ -385,6 +399,15 @@ func stateParam(st string) (string, bool) {
 
 // apply interprets one request line; returns the canonical answer and whether the line has an answer
 func (h *H) apply(line string) (string, bool) {
+	out, has := h.apply1(line)
+	if has && h.srv != nil && !strings.HasPrefix(line, "DEF") && !strings.HasPrefix(line, "SNAP") {
+		h.mon.layoutOK(h)
+		h.mon.fsUnchanged(h)
+	}
+	return out, has
+}
+
+func (h *H) apply1(line string) (string, bool) {
 	h.lineNo++
 	t := strings.Fields(line)
 	if len(t) == 0 {
